@@ -47,9 +47,9 @@ struct bind_return_functor : public adapts<T_functor>
    * @return The fixed return value.
    */
   template<typename... T_arg>
-  inline typename unwrap_reference<T_return>::type operator()(T_arg... a)
+  inline typename unwrap_reference<T_return>::type operator()(T_arg&&... a)
   {
-    std::invoke(this->functor_, a...);
+    std::invoke(this->functor_, std::forward<T_arg>(a)...);
     return ret_value_.invoke();
   }
 
